@@ -1067,7 +1067,11 @@ impl Session {
     fn emit_row_events(&mut self, d: &Directive, i: usize, out: &mut Vec<u8>) -> Option<Flow> {
         for n in &d.notice_at {
             if *n == i {
-                out.extend_from_slice(&proto::notice_response(&format!("notice before row {}", i)));
+                let mut text = format!("notice before row {}", i);
+                if d.notice_len > text.len() {
+                    text.push_str(&"n".repeat(d.notice_len - text.len()));
+                }
+                out.extend_from_slice(&proto::notice_response(&text));
             }
         }
         for (at, k, v) in &d.pstatus_at {
